@@ -1903,6 +1903,13 @@ class Executor:
                 return Scalar(az - bz)
             if isinstance(op, ast.Mult):
                 return Scalar(az * bz)
+        if isinstance(op, ast.Add) and isinstance(a, Scalar) and isinstance(b, Scalar) and a.z.sort() == Atom and b.z.sort() == Atom \
+                and a.pytype == "str" and b.pytype == "str":
+            # string concatenation: the literal when both operands are literals, some string otherwise
+            na, nb = a.z.decl().name(), b.z.decl().name()
+            if na.startswith("str:") and nb.startswith("str:") and a.z.num_args() == 0 and b.z.num_args() == 0:
+                return Scalar(str_const(na[4:] + nb[4:]), "str")
+            return Scalar(fresh("strcat", Atom), "str")
         r = self.lib.binop(self, op, a, b, st)
         if r is not None:
             return r
